@@ -108,4 +108,30 @@ def faults(m, meta):
     if rd.finalized:
         problems.append({"scenario": "data owned by the caller was finalized by the iterator"})
     rd.finalize(); check(r, "caller-owned-data")
+    # data owned by the caller stays un-finalized whatever happens to the iterator: error in the k-th render, close, exhaustion;
+    # and an iterator that owns its data keeps it un-finalized (and usable) until it is exhausted, closed or fails
+    for k in (1, 2, 3):
+        for exc in (Boom, KeyboardInterrupt):
+            r = Foo(3, fail_at=k, exc=exc); rd = r._get_render_data_(iteration=True)
+            it = RenderIterator._from_render_data_(r, rd, finalize=False)
+            try:
+                list(it)
+            except (Boom, KeyboardInterrupt):
+                pass
+            if rd.finalized:
+                problems.append({"scenario": f"caller-owned data finalized when render #{k} raised {exc.__name__}"})
+            rd.finalize()
+    r = Foo(2); it = RenderIterator(r, loops=3, cache=True)
+    for step in range(3):
+        next(it)
+    it.set_render_size(Size(3, 3))           # cached frames are no longer valid: they are rendered again with the same data
+    try:
+        for step in range(3):
+            next(it)
+    except Exception as e:
+        problems.append({"scenario": "re-render after the cache was invalidated failed", "error": type(e).__name__})
+    if r.used_after_fin:
+        problems.append({"scenario": "frame rendered with finalized data after every frame had been cached once", "renders": r.used_after_fin})
+    it.close()
+    check(r, "cache-filled-then-invalidated")
     return {"reproduced": bool(problems), "input": "fault scenarios on render/str/format/draw/RenderIterator", "observed": problems[:4]}
